@@ -293,11 +293,15 @@ type recTB struct {
 
 type fatalSentinel struct{}
 
-func (r *recTB) Helper()                       {}
-func (r *recTB) Errorf(f string, a ...any)     { r.errors = append(r.errors, fmt.Sprintf(f, a...)) }
-func (r *recTB) Error(a ...any)                { r.errors = append(r.errors, fmt.Sprint(a...)) }
-func (r *recTB) Fatalf(f string, a ...any)     { r.errors = append(r.errors, fmt.Sprintf(f, a...)); r.fatal = true; panic(fatalSentinel{}) }
-func (r *recTB) Cleanup(f func())              { r.cleanups = append(r.cleanups, f) }
+func (r *recTB) Helper()                   {}
+func (r *recTB) Errorf(f string, a ...any) { r.errors = append(r.errors, fmt.Sprintf(f, a...)) }
+func (r *recTB) Error(a ...any)            { r.errors = append(r.errors, fmt.Sprint(a...)) }
+func (r *recTB) Fatalf(f string, a ...any) {
+	r.errors = append(r.errors, fmt.Sprintf(f, a...))
+	r.fatal = true
+	panic(fatalSentinel{})
+}
+func (r *recTB) Cleanup(f func()) { r.cleanups = append(r.cleanups, f) }
 func (r *recTB) finish() {
 	for i := len(r.cleanups) - 1; i >= 0; i-- {
 		r.cleanups[i]()
